@@ -210,7 +210,7 @@ def _summarise(I, node, st, spec):
         for k in list_keys:
             alt = _alt([(_conj(d["conds"]), cat(*d["lists"].get(k, ()))) for d in normal])
             old = s.heap[k]
-            s.heap[k] = dict(old, parts=old["parts"] + (For(i, upto, alt, spec.unordered, lo),))
+            s.heap[k] = dict(old, parts=old["parts"] + (For(i, upto, alt, spec.unordered, lo),), items=None)
 
     # Case A: the loop runs to exhaustion
     sA = st.fork()
@@ -245,7 +245,7 @@ def _summarise(I, node, st, spec):
         sB.out = sB.out + tuple(subst(p, pairs) for p in d["out"])
         for k, parts in d["lists"].items():
             old = sB.heap[k]
-            sB.heap[k] = dict(old, parts=old["parts"] + tuple(subst(p, pairs) for p in parts))
+            sB.heap[k] = dict(old, parts=old["parts"] + tuple(subst(p, pairs) for p in parts), items=None)
         s_exit = d["state"]
         for k, v in s_exit.heap.items():
             if k not in st.heap:
@@ -415,7 +415,7 @@ def _over_seq(I, node, st, seq):
     for k, v in lists.items():
         if not isinstance(v, Nil):
             old = s.heap[k]
-            s.heap[k] = dict(old, parts=old["parts"] + (v,))
+            s.heap[k] = dict(old, parts=old["parts"] + (v,), items=None)
     for t in _target_names(node.target):
         s.env[t] = Undefined(t)
     res = I.exec_block(node.orelse, s) if node.orelse else [(s, ("next", None))]
@@ -477,7 +477,7 @@ def eval_collect(I, st, gen_node, kind="list"):
     name = "__pyvc_l%d" % I.ctx.new_oid()
     s0 = st.fork()
     oid = I.ctx.new_oid()
-    s0.heap[oid] = {"kind": kind, "parts": ()}
+    s0.heap[oid] = {"kind": kind, "parts": (), "items": [] if kind == "list" else None}
     s0.env[name] = ListObj(oid)
     app = ast.Expr(value=ast.Call(func=ast.Attribute(value=ast.Name(id=name, ctx=ast.Load()), attr="append", ctx=ast.Load()),
                                   args=[gen_node.elt], keywords=[]))
@@ -651,4 +651,55 @@ def _with_invariant(I, node, st, spec, inv, ordinal):
             results.extend(I.exec_block(node.orelse, sA))
         else:
             results.append((sA, ("next", None)))
+    return results
+
+
+class WhileInv:
+    """Invariant of a while loop: `vars` are the loop-carried names (havocked), formula(I, st) the
+    invariant over the current bindings, variant(I, st) an Int term that is >= 0 and strictly decreases."""
+    vars = ()
+
+    def havoc(self, I, st, name):
+        raise NotImplementedError
+
+    def formula(self, I, st):
+        raise NotImplementedError
+
+    def variant(self, I, st):
+        return None
+
+
+def run_while(I, node, st, inv):
+    from contracts.core import Obligation
+    ctx = I.ctx
+    if node.orelse:
+        raise OutOfSubset("while/else")
+    name = "%s/L/while%d" % (st.unit.key, loop_ordinal(st.unit, node))
+    ctx.obligations.append(Obligation(name + ".init", "L", st.pc, inv.formula(I, st), note="while invariant holds on entry"))
+    s = st.fork()
+    for v in inv.vars:
+        s.env[v] = inv.havoc(I, s, v)
+    s.pc.append(inv.formula(I, s))
+    results = []
+    for s1, c in I.eval(node.test, s):
+        if isinstance(c, Raised):
+            results.append((s1, ("raise", c.exc)))
+            continue
+        t = truth(ctx, s1, c)
+        for s2, taken in branch(ctx, s1, [(t, True), (z3.Not(t), False)]):
+            if not taken:
+                results.append((s2, ("next", None)))
+                continue
+            v0 = inv.variant(I, s2)
+            for s3, ctl in I.exec_block(node.body, s2):
+                if ctl[0] in ("next", "continue"):
+                    ctx.obligations.append(Obligation(name + ".preserve", "L", s3.pc, inv.formula(I, s3), note="while invariant preserved"))
+                    if v0 is not None:
+                        v1 = inv.variant(I, s3)
+                        ctx.obligations.append(Obligation(name + ".decreases", "L", s3.pc, z3.And(v0 >= 0, v1 < v0),
+                                                          note="while variant is non-negative and strictly decreases (termination)"))
+                elif ctl[0] == "break":
+                    results.append((s3, ("next", None)))
+                else:
+                    results.append((s3, ctl))
     return results
